@@ -451,7 +451,73 @@ def check_C02(ctx):
     return finish_with_proofs(ctx, {'alloc_bound_rule': 'bytes passed to operator new during Read <= alloc_factor(type) * (input length + 1), alloc_factor = 4 * sum over reachable types of (object size estimate + 64) + 128'})
 
 
-CHECKS = {'C01': check_C01, 'C02': check_C02, 'C03': check_C03, 'C04': check_C04, 'C05': check_C05, 'C06': check_C06}
+# ------------------------------------------------------------------ C10 -----
+CODES = list(range(1, 19))
+
+
+def check_C10(ctx):
+    proofs_or_violation(ctx, ['Properties_C10.v'])
+    S = CodecStreams(ctx, nvals=(5 if ctx.quick else 40))
+    pool = S.pool
+    rows = [r for r in S.run_enc() if r['h'] and r['h']['st'] == '0']
+    # fault-free runs first (write and read), to learn the call sequences
+    base = []
+    for r in rows:
+        base.append(('w', r, 'fenc T%d - 0 %s' % (r['tid'], r['input']), 'fenc T%d - 0 %s' % (r['tid'], r['h']['dump'])))
+        base.append(('r', r, 'fdec T%d - 0 %s -' % (r['tid'], r['h']['bytes']), 'fdec T%d - 0 %s -' % (r['tid'], r['h']['bytes'])))
+    ho = run_harness(pool, [b[2] for b in base])
+    mo = run_driver(pool, [b[3] for b in base])
+    broken, cases = [], []
+    limit = 120 if ctx.quick else 2000
+    ci = 0
+    for (kind, r, hl, ml), o, m in zip(base, ho, mo):
+        ctx.count('fault-free:' + kind, hl)
+        if o.startswith(('CRASH', 'HARNESS', 'OOM', 'EXCEPTION')):
+            ctx.violate('harness-crash', 'instrumented run crashed: %s -> %s' % (hl[:160], o[:300]), {'case': hl, 'output': o})
+            continue
+        f, g = sx.fields(o), sx.fields(m)
+        if not same(f, g, ('st', 'calls', 'log')):
+            broken.append({'case': hl, 'hraw': o, 'mraw': m})
+        n = int(f['calls'])
+        ks = range(n) if n <= limit else sorted(set(list(range(40)) + [ctx.rng.randrange(n) for _ in range(60)] + [n - 1]))
+        log = f['log'].split(',') if f['log'] != '-' else []
+        for k in ks:
+            code = CODES[ci % len(CODES)]
+            ci += 1
+            if kind == 'w':
+                cases.append((kind, r, k, code, log, 'fenc T%d %d %d %s' % (r['tid'], k, code, r['input']), 'fenc T%d %d %d %s' % (r['tid'], k, code, r['h']['dump'])))
+            else:
+                cases.append((kind, r, k, code, log, 'fdec T%d %d %d %s -' % (r['tid'], k, code, r['h']['bytes']), 'fdec T%d %d %d %s -' % (r['tid'], k, code, r['h']['bytes'])))
+    ho = run_harness(pool, [c[5] for c in cases])
+    mo = run_driver(pool, [c[6] for c in cases])
+    for (kind, r, k, code, log, hl, ml), o, m in zip(cases, ho, mo):
+        ctx.count('fault:' + kind, hl)
+        if o.startswith(('CRASH', 'HARNESS', 'OOM', 'EXCEPTION')):
+            ctx.violate('harness-crash', 'instrumented run crashed: %s -> %s' % (hl[:160], o[:300]), {'case': hl, 'output': o})
+            continue
+        f = sx.fields(o)
+        got = f['log'].split(',') if f['log'] != '-' else []
+        if f['st'] == '0':
+            ctx.violate('success-after-failure', '%s reported success although primitive call %d failed with %d: %s' % ('Write' if kind == 'w' else 'Read', k, code, hl[:200]),
+                        {'type': type_desc(pool, r['tid']), 'case': hl, 'output': o, 'fault_free_log': log})
+        elif f['st'] != str(code):
+            ctx.violate('error-not-verbatim', 'call %d failed with %d but the operation returned %s: %s' % (k, code, f['st'], hl[:200]),
+                        {'type': type_desc(pool, r['tid']), 'case': hl, 'output': o})
+        elif int(f['calls']) != k + 1:
+            ctx.violate('calls-after-failure', 'call %d failed but %s calls were made in total: %s' % (k, f['calls'], hl[:200]),
+                        {'type': type_desc(pool, r['tid']), 'case': hl, 'output': o, 'fault_free_log': log})
+        elif got != log[:k + 1]:
+            ctx.violate('different-calls', 'calls up to the failing one differ from the fault-free run: ' + hl[:200],
+                        {'case': hl, 'output': o, 'fault_free_log': log})
+        elif kind == 'w' and k == 0 and (len(got) != 1 or not got[0].startswith('P')):
+            ctx.violate('prepare-not-first', 'a failing Prepare was not the only call: ' + hl[:200], {'case': hl, 'output': o})
+        if not m.startswith('DRIVER') and not same(f, sx.fields(m), ('st', 'calls', 'log')):
+            broken.append({'case': hl, 'hraw': o, 'mraw': m})
+    report_broken(ctx, broken, 'fault', 'call sequence and status under fault injection = model (inst wrapper)')
+    return finish_with_proofs(ctx)
+
+
+CHECKS = {'C01': check_C01, 'C02': check_C02, 'C10': check_C10, 'C03': check_C03, 'C04': check_C04, 'C05': check_C05, 'C06': check_C06}
 
 
 def run(pid, tier, seed, replay=None):
